@@ -30,6 +30,13 @@ block as a whole).  The callback's `enter` event is emitted in the step that tak
 lock, its `exit` event in the step that releases it — the strongest placement for the exclusivity
 and unsubscribe claims.  Callback bodies are opaque: they do not call back into the same object.
 
+Update ids (`uid`, `lastUpdate`, a writer's `id`) are unbounded naturals: the code's `uniqueID` is a
+`uint64` that is only ever incremented, and 2⁶⁴ updates are out of reach (obligation
+`C13_skeleton_type_uniqueID`; with a narrower type the id of a real change could wrap onto a recorded
+`lastUpdate` and the change would be dropped by `LockExecution`).  The atomicity of the list
+operations is the list mutex held around each whole operation (`C13_skeleton_list_*`).  Which Go
+field each of `U`, `V`, `E` is, is fixed by the `C13_skeleton_type_*` obligations.
+
 Ghost fields (never read by the protocol): per callback the history entries since its registration
 (`since`), how many of them were delivered to it (`d`), the state at registration (`s0`), the
 initial note (`ini`) and whether the initial phase is over (`iniDone`).
